@@ -120,7 +120,7 @@ def normalize_dict(d):
         _SEEN[id(d)] = len(_SEEN), d
         try:
             return "dict", _normalize_seq_func(
-                sorted(d.items(), key=lambda kv: str(kv[0]))
+                sorted(d.items(), key=lambda kv: (str(kv[0]), type(kv[0]).__name__))
             )
         finally:
             _SEEN.pop(id(d), None)
@@ -136,7 +136,9 @@ def normalize_set(s):
     # Note: in some Python version / OS combinations, set order changes every
     # time you recreate the set (even within the same interpreter).
     # In most other cases, set ordering is consistent within the same interpreter.
-    return "set", _normalize_seq_func(sorted(s, key=str))
+    return "set", _normalize_seq_func(
+        sorted(s, key=lambda x: (str(x), type(x).__name__))
+    )
 
 
 def _normalize_seq_func(seq: Iterable[object]) -> tuple[object, ...]:
